@@ -1,3 +1,40 @@
-From Coq Require Import ZArith.
-Theorem placeholder : True. Proof. exact I. Qed.
-Print Assumptions placeholder.
+(* C15 — every backend obeys the group/exponent laws; constants form a safe-prime group; results canonical.
+   Pinned statements only: each proof is `exact <lemma>` from Proofs/. *)
+From Coq Require Import ZArith Znumtheory List.
+From Strand Require Import Base.ZUtil Generated.Constants Model.Outcome Model.Backend Model.ZBackend
+  Model.Exec Model.Params2048 Proofs.Laws Proofs.ZLaws Proofs.ZInst.
+Open Scope Z_scope.
+
+(* the code's own operations satisfy the laws of a commutative group of exponent q acted on by Z_q
+   (associativity, commutativity, identity, inverses, a^(x+y), (a^x)^y, (ab)^x, a^q = 1, canonical
+   results, closure), for every kernel, both multiplicative backends, every admissible parameter set *)
+Theorem C15_group_laws : forall K fl P, GoodParams P -> Laws (ZB K fl P) (member P).
+Proof. exact ZB_laws. Qed.
+Print Assumptions C15_group_laws.
+
+Theorem C15_small_sets_are_safe_prime_groups : forall p, In p small_moduli -> SafePrime (mkP p).
+Proof. exact small_sets_safe. Qed.
+Print Assumptions C15_small_sets_are_safe_prime_groups.
+
+(* shipped constants, regenerated from src/backend.rs on every run *)
+Theorem C15_constants :
+  p2048 = 2 * q2048 + 1 /\ 1 < g2048 < p2048 /\ powm g2048 q2048 p2048 = 1 /\ cofactor2048 = 2 /\
+  Z.odd q2048 = true.
+Proof. exact (conj p2048_safe_shape (conj g2048_range (conj g2048_order (conj cofactor_two q2048_odd)))). Qed.
+Print Assumptions C15_constants.
+
+Theorem C15_P2048_admissible : GoodParams P2048.
+Proof. exact good_P2048. Qed.
+Print Assumptions C15_P2048_admissible.
+
+(* primality of p2048, q2048 is a named hypothesis: nothing installed can certify it *)
+Theorem C15_P2048_safe_prime : prime p2048 -> prime q2048 -> SafePrime P2048.
+Proof. exact safe_P2048. Qed.
+Print Assumptions C15_P2048_safe_prime.
+
+(* non-vacuity: a concrete parameter set meets the hypotheses *)
+Example C15_nonvacuous : GoodParams (mkP 23) /\ member (mkP 23) 4 /\ member (mkP 23) 1.
+Proof.
+  assert (S : SafePrime (mkP 23)) by (apply small_sets_safe; vm_compute; auto).
+  split; [exact (sp_good _ S)|]. split; apply memberb_spec; vm_compute; auto.
+Qed.
